@@ -214,6 +214,8 @@ func (t *Slice) genAppendFunc(m *Module) string {
 	dest := NewLocal("dest", t._base_ptr)
 	f.Locals = append(f.Locals, dest)
 	item_size := NewConst(strconv.Itoa(t.Base.Size()), t._u32)
+	step := NewLocal("step", t._u32)
+	f.Locals = append(f.Locals, step)
 
 	inst_if := wat.NewInstIf(nil, nil, t.Raw())
 	{ //if_true
@@ -236,6 +238,42 @@ func (t *Slice) genAppendFunc(m *Module) string {
 		if_true = append(if_true, wat.NewInstAdd(wat.U32{}))
 		if_true = append(if_true, dest.EmitPop()...)
 
+		// y may alias x's spare capacity from below (append(s[:i], s[j:]...) with
+		// j < i): when src < dest copy from the last element downwards (memmove).
+		if_true = append(if_true, item_size.EmitPush()...)
+		if_true = append(if_true, step.EmitPop()...)
+		if_true = append(if_true, src.EmitPush()...)
+		if_true = append(if_true, dest.EmitPush()...)
+		if_true = append(if_true, wat.NewInstLt(wat.U32{}))
+		{
+			var backward []wat.Inst
+			// off = (y_len - 1) * item_size
+			backward = append(backward, src.EmitPush()...)
+			backward = append(backward, y_len.EmitPush()...)
+			backward = append(backward, NewConst("1", t._u32).EmitPush()...)
+			backward = append(backward, wat.NewInstSub(wat.U32{}))
+			backward = append(backward, item_size.EmitPush()...)
+			backward = append(backward, wat.NewInstMul(wat.U32{}))
+			backward = append(backward, wat.NewInstAdd(wat.U32{}))
+			backward = append(backward, src.EmitPop()...)
+
+			backward = append(backward, dest.EmitPush()...)
+			backward = append(backward, y_len.EmitPush()...)
+			backward = append(backward, NewConst("1", t._u32).EmitPush()...)
+			backward = append(backward, wat.NewInstSub(wat.U32{}))
+			backward = append(backward, item_size.EmitPush()...)
+			backward = append(backward, wat.NewInstMul(wat.U32{}))
+			backward = append(backward, wat.NewInstAdd(wat.U32{}))
+			backward = append(backward, dest.EmitPop()...)
+
+			// step = 0 - item_size
+			backward = append(backward, NewConst("0", t._u32).EmitPush()...)
+			backward = append(backward, item_size.EmitPush()...)
+			backward = append(backward, wat.NewInstSub(wat.U32{}))
+			backward = append(backward, step.EmitPop()...)
+			if_true = append(if_true, wat.NewInstIf(backward, nil, nil))
+		}
+
 		block := wat.NewInstBlock("block1")
 		loop := wat.NewInstLoop("loop1")
 		{
@@ -249,12 +287,12 @@ func (t *Slice) genAppendFunc(m *Module) string {
 			loop.Insts = append(loop.Insts, item.emitStoreToAddr(dest, 0)...)
 
 			loop.Insts = append(loop.Insts, src.EmitPush()...)
-			loop.Insts = append(loop.Insts, item_size.EmitPush()...)
+			loop.Insts = append(loop.Insts, step.EmitPush()...)
 			loop.Insts = append(loop.Insts, wat.NewInstAdd(wat.U32{}))
 			loop.Insts = append(loop.Insts, src.EmitPop()...)
 
 			loop.Insts = append(loop.Insts, dest.EmitPush()...)
-			loop.Insts = append(loop.Insts, item_size.EmitPush()...)
+			loop.Insts = append(loop.Insts, step.EmitPush()...)
 			loop.Insts = append(loop.Insts, wat.NewInstAdd(wat.U32{}))
 			loop.Insts = append(loop.Insts, dest.EmitPop()...)
 
